@@ -7,6 +7,8 @@ import (
 	"go/types"
 	"math/big"
 	"strings"
+
+	"golang.org/x/tools/go/ssa"
 )
 
 // Bit is one bit origin.
@@ -119,6 +121,150 @@ func (b Bits) Known() (constant.Value, bool) {
 	return v, true
 }
 
+// bitCount models math/bits.LeadingZeros*/TrailingZeros*/Len* on a bit vector: the count of known zero bits from the
+// respective end up to the first known one bit; if an unknown or symbolic bit comes first, the interval from the
+// zeros seen so far to the position of the first known one (or the width).
+func bitCount(name string, args []Val, fn *ssa.Function) (Val, bool) {
+	if !strings.HasPrefix(name, "math/bits.") || len(args) != 1 || fn.Signature.Params().Len() != 1 {
+		return nil, false
+	}
+	kind := strings.TrimRight(strings.TrimPrefix(name, "math/bits."), "0123456789")
+	if kind != "LeadingZeros" && kind != "TrailingZeros" && kind != "Len" {
+		return nil, false
+	}
+	b, ok := toBits(args[0], fn.Signature.Params().At(0).Type())
+	if !ok {
+		return nil, false
+	}
+	w := len(b.B)
+	at := func(i int) Bit { // i-th bit from the counted end
+		if kind == "TrailingZeros" {
+			return b.B[i]
+		}
+		return b.B[w-1-i]
+	}
+	lo, hi := 0, w
+	i := 0
+	for i < w && at(i).K == '0' {
+		i++
+	}
+	lo = i
+	exact := i == w || at(i).K == '1'
+	if !exact {
+		for j := i; j < w; j++ {
+			if at(j).K == '1' {
+				hi = j
+				break
+			}
+		}
+	} else {
+		hi = lo
+	}
+	if kind == "Len" {
+		lo, hi = w-hi, w-lo
+	}
+	if lo == hi {
+		return Const{constant.MakeInt64(int64(lo))}, true
+	}
+	return IntRange{Lo: int64(lo), Hi: int64(hi)}, true
+}
+
+// byteOrder models encoding/binary's fixed-width accessors on a modelled byte slice: PutUintN stores the N/8 octets
+// of the value into the first cells of the slice, UintN reads them back, in the byte order of the receiver type.
+func byteOrder(name string, args []Val) (Val, bool) {
+	var big bool
+	switch {
+	case strings.HasPrefix(name, "(encoding/binary.bigEndian)."):
+		big = true
+	case strings.HasPrefix(name, "(encoding/binary.littleEndian)."):
+	default:
+		return nil, false
+	}
+	method := name[strings.LastIndex(name, ".")+1:]
+	put := strings.HasPrefix(method, "PutUint")
+	if !put && !strings.HasPrefix(method, "Uint") {
+		return nil, false
+	}
+	var n int
+	switch strings.TrimPrefix(strings.TrimPrefix(method, "Put"), "Uint") {
+	case "16":
+		n = 2
+	case "32":
+		n = 4
+	case "64":
+		n = 8
+	default:
+		return nil, false
+	}
+	if len(args) < 2 {
+		return nil, false
+	}
+	sv, ok := args[1].(*SliceV)
+	if !ok || len(sv.Elems) < n {
+		return nil, false
+	}
+	octet := func(k int) int { // index of the cell that holds bits [8k+7:8k]
+		if big {
+			return n - 1 - k
+		}
+		return k
+	}
+	if put {
+		if len(args) != 3 {
+			return nil, false
+		}
+		var b Bits
+		switch v := args[2].(type) {
+		case Bits:
+			b = v
+		case Const:
+			if v.V == nil || v.V.Kind() != constant.Int {
+				return nil, false
+			}
+			b = constBits(v.V, 8*n, false)
+		case Sym:
+			symShape[v.Name] = symShapeT{8 * n, false}
+			b = SymBits(v.Name, 8*n, false)
+		case Affine:
+			nm := v.String()
+			symDefs[nm] = v
+			b = SymBits(nm, 8*n, false)
+		default:
+			return nil, false
+		}
+		if len(b.B) != 8*n {
+			return nil, false
+		}
+		for k := 0; k < n; k++ {
+			sv.Elems[octet(k)].V = Bits{B: append([]Bit(nil), b.B[8*k:8*k+8]...)}
+		}
+		return Tuple{}, true
+	}
+	r := Bits{B: make([]Bit, 8*n)}
+	for k := 0; k < n; k++ {
+		var ob Bits
+		switch v := sv.Elems[octet(k)].V.(type) {
+		case Bits:
+			ob = v
+		case Const:
+			if v.V == nil || v.V.Kind() != constant.Int {
+				return nil, false
+			}
+			ob = constBits(v.V, 8, false)
+		case Sym:
+			symShape[v.Name] = symShapeT{8, false}
+			ob = SymBits(v.Name, 8, false)
+		default:
+			return nil, false
+		}
+		if len(ob.B) != 8 {
+			return nil, false
+		}
+		copy(r.B[8*k:], ob.B)
+	}
+	return r, true
+}
+
 // WordBits is the width of int, uint and uintptr on the analysed target (set by the loader from the type-checker's
 // sizes: 32 under GOARCH=386).
 var WordBits = 64
@@ -194,6 +340,7 @@ func toBits(v Val, t types.Type) (Bits, bool) {
 		}
 		return constBits(x.V, w, signed), true
 	case Sym:
+		symShape[x.Name] = symShapeT{w, signed}
 		return SymBits(x.Name, w, signed), true
 	case Affine:
 		name := x.String()
@@ -201,6 +348,92 @@ func toBits(v Val, t types.Type) (Bits, bool) {
 		return SymBits(name, w, signed), true
 	}
 	return Bits{}, false
+}
+
+// symShape records the width and signedness a symbol was materialised with (the type of the program value it stands
+// for): a run S[k:0] inside a larger vector is the whole value only if k+1 is that width.
+type symShapeT struct {
+	w      int
+	signed bool
+}
+
+var symShape = map[string]symShapeT{}
+
+// packedCmp orders two bit vectors that pack the same sequence of fields at the same positions (a sortable key such
+// as year<<16 | month<<8 | day): the vectors are cut, from the most significant end, into aligned segments — equal
+// constant runs, or a whole symbol on either side (preceded, for a signed symbol at the top of a signed vector, by
+// its sign extension) — and the first segment ordered as different decides. Fields below the top must be unsigned
+// (their raw bits order like their values). The fields are put to `ask` one by one; if a field is unknown to it, the
+// whole key is put once, as lexkey(f1,…,fn) on either side (an oracle that orders composite values whose order is
+// the lexicographic order of exactly these fields can answer that). ok=false: not of this form, or not known.
+func packedCmp(x, y Bits, ask func(a, b Val) (int, bool)) (ord int, ok bool) {
+	if len(x.B) != len(y.B) || x.Signed != y.Signed || len(x.B) == 0 {
+		return 0, false
+	}
+	w := len(x.B)
+	i := w - 1
+	var fa, fb []Val
+	for i >= 0 {
+		a, b := x.B[i], y.B[i]
+		switch {
+		case (a.K == '0' || a.K == '1') && (b.K == '0' || b.K == '1'):
+			if a.K != b.K {
+				return 0, false // differing constants: not the same layout
+			}
+			i--
+		case a.K == 's' && b.K == 's':
+			sa, okA := symShape[a.Sym]
+			sb, okB := symShape[b.Sym]
+			if !okA || !okB || sa != sb || a.Idx != sa.w-1 || b.Idx != sb.w-1 {
+				return 0, false
+			}
+			// sign extension: further copies of the symbol's top bit above the field itself
+			j := i
+			for j-1 >= 0 && x.B[j-1] == a && y.B[j-1] == b {
+				j--
+			}
+			ext := i - j // copies above the field's own top bit
+			lo := j - (sa.w - 1)
+			if lo < 0 {
+				return 0, false
+			}
+			fx := Bits{B: x.B[lo : lo+sa.w]}
+			fy := Bits{B: y.B[lo : lo+sa.w]}
+			if nx, ok := fx.wholeSym(); !ok || nx != a.Sym {
+				return 0, false
+			}
+			if ny, ok := fy.wholeSym(); !ok || ny != b.Sym {
+				return 0, false
+			}
+			atTop := i == w-1
+			switch {
+			case sa.signed && !(atTop && x.Signed):
+				return 0, false // a signed field whose raw bits would be compared as unsigned
+			case !sa.signed && ext > 0:
+				return 0, false
+			case !sa.signed && atTop && x.Signed:
+				return 0, false // an unsigned field reaching the sign bit of a signed vector
+			}
+			fa = append(fa, Sym{a.Sym})
+			fb = append(fb, Sym{b.Sym})
+			i = lo - 1
+		default:
+			return 0, false
+		}
+	}
+	if len(fa) == 0 {
+		return 0, false
+	}
+	for k := range fa {
+		r, known := ask(fa[k], fb[k])
+		if !known {
+			return ask(Term{Fn: "lexkey", Args: fa}, Term{Fn: "lexkey", Args: fb})
+		}
+		if r != 0 {
+			return r, true
+		}
+	}
+	return 0, true
 }
 
 // wholeSym reports whether b is exactly sym[w-1:0].
